@@ -230,6 +230,27 @@ func TestPropRoundTrip(t *testing.T) {
 		if d := sameNode(n, one); d != "" {
 			t.Fatalf("node reply round trip: %s", d)
 		}
+		// messages and notifications (the other two payloads that travel as
+		// protobuf on the bus)
+		m := data.Message{ID: gen.Text().Draw(t, "mID"), UserID: gen.Text().Draw(t, "mUser"), ParentID: gen.Text().Draw(t, "mParent"),
+			NotificationID: gen.Text().Draw(t, "mNot"), Email: gen.Text().Draw(t, "mEmail"), Phone: gen.Text().Draw(t, "mPhone"),
+			Subject: gen.Text().Draw(t, "mSubject"), Message: gen.Text().Draw(t, "mMessage")}
+		mb, err := m.ToPb()
+		if err != nil {
+			t.Fatalf("Message.ToPb: %v", err)
+		}
+		if mBack, err := data.PbDecodeMessage(mb); err != nil || mBack != m {
+			t.Fatalf("message round trip: %v\n got %+v\nwant %+v", err, mBack, m)
+		}
+		no := data.Notification{ID: gen.Text().Draw(t, "nID"), Parent: gen.Text().Draw(t, "nParent"), SourceNode: gen.Text().Draw(t, "nSource"),
+			Subject: gen.Text().Draw(t, "nSubject"), Message: gen.Text().Draw(t, "nMessage")}
+		nob, err := no.ToPb()
+		if err != nil {
+			t.Fatalf("Notification.ToPb: %v", err)
+		}
+		if noBack, err := data.PbDecodeNotification(nob); err != nil || noBack != no {
+			t.Fatalf("notification round trip: %v\n got %+v\nwant %+v", err, noBack, no)
+		}
 		nt := false
 		for _, p := range append(append(data.Points{}, ps...), n.Points...) {
 			_, off := p.Time.Zone()
@@ -269,6 +290,8 @@ func runAll(b []byte, subject string) (accepted int, panicked any, where string,
 	try("PbDecodeNodes", func() error { _, err := data.PbDecodeNodes(b); return err })
 	try("PbDecodeNodeRequest", func() error { _, err := data.PbDecodeNodeRequest(b); return err })
 	try("PbDecodeNodesRequest", func() error { _, err := data.PbDecodeNodesRequest(b); return err })
+	try("PbDecodeMessage", func() error { _, err := data.PbDecodeMessage(b); return err })
+	try("PbDecodeNotification", func() error { _, err := data.PbDecodeNotification(b); return err })
 	try("PbDecodeSerialPoints", func() error { _, err := data.PbDecodeSerialPoints(b); return err })
 	try("DecodeSerialHrPayload", func() error { return data.DecodeSerialHrPayload(b, func(data.Point) {}) })
 	try("SerialDecode", func() error {
